@@ -139,6 +139,34 @@ class ProtoGen:
         return {"rules": out, "parties": list(self.parties), "types": list(self.types)}
 
 
+def hide_helper(g: dict, rng, hidden_parties: list[str]) -> Optional[str]:
+    """rewrite the messages of one helper nonterminal so that they travel between `hidden_parties` only (fresh
+    message types `h<i>`): slicing to the other parties deletes the helper's rule, or what is left of it after
+    its own invisible parts are gone, in a later round of `slice_parties`.  Returns the helper's name."""
+    helpers = [name for name, _ in g["rules"] if name != "start"]
+    if not helpers or len(hidden_parties) < 2:
+        return None
+    victim = rng.choice(helpers)
+    pairs = [(a, b) for a in hidden_parties for b in hidden_parties if a != b]
+    fresh: dict = {}
+
+    def rw(e):
+        k = e[0]
+        if k == "msg":
+            t = fresh.setdefault(e[3], f"h{len(fresh)}")
+            s, r = pairs[len(fresh) % len(pairs)] if t not in rw.pair else rw.pair[t]
+            rw.pair[t] = (s, r)
+            return ("msg", s, r, t)
+        if k == "nt":
+            return e
+        if k in ("seq", "alt"):
+            return (k, [rw(x) for x in e[1]])
+        return (k, rw(e[1])) + tuple(e[2:])
+    rw.pair = {}
+    g["rules"] = [(name, rw(e) if name == victim else e) for name, e in g["rules"]]
+    return victim
+
+
 # ---- printing
 
 def show(e, top: bool = False) -> str:
